@@ -455,6 +455,11 @@ pub fn gen_node(prop: &str, kind: &str, profile: u8, tier: Tier, rng: &mut Rng, 
             if ramp != 0 {
                 v = ramp_base + ramp_inc * ramp_k as f32;
             }
+            // structural profile: a glitched reading now and then (the structural statements - no stale
+            // error, reset = restart, get is pure - do not depend on the values being numbers)
+            if profile == 0 && ramp == 0 && rng.chance(0.02) {
+                v = *rng.pick(&[f32::NAN, f32::INFINITY, f32::NEG_INFINITY]);
+            }
             if ulp_walk {
                 if let Some(p) = prev_v {
                     if p.is_normal() && rng.chance(0.85) {
